@@ -1235,6 +1235,25 @@ impl Gen {
     fn event_op(&mut self) {
         let id = self.v();
         let nclients = self.sys.clients.len() as u64;
+        if self.rng.chance(1, 12) {
+            // events buffered over frames without a tick, a client joining in between, then the flush
+            self.step(format!("sev ord {id} b"));
+            self.step("sframe tick=0".into());
+            let c = self.rng.below(nclients) as usize;
+            if self.sys.clients[c].server_side.is_some() && self.rng.chance(1, 2) {
+                self.step(format!("disconnect {c}"));
+                self.step("sframe tick=0".into());
+                self.step(format!("cframe {c}"));
+            }
+            let id2 = self.v();
+            self.step(format!("sev ord {id2} b"));
+            if self.rng.chance(1, 2) { self.step("sframe tick=0".into()); }
+            if self.sys.clients[c].server_side.is_none() { self.step(format!("connect {c}")); }
+            let id3 = self.v();
+            self.step(format!("sev ord {id3} b"));
+            self.step("sframe tick=1".into());
+            return;
+        }
         if self.rng.chance(3, 5) {
             let kind = *self.rng.pick(&["ord", "ord", "map", "ind", "trig", "unrel"]);
             let mode = match self.rng.below(6) {
@@ -1342,10 +1361,12 @@ impl Gen {
                     loop {
                         let len = if s2c { self.sys.clients[c].s2c[ch].len() } else { self.sys.clients[c].c2s[ch].len() };
                         if len == 0 { break; }
-                        // moods: 0 perfect, 1 hold the reliable channel, 2 lossy, 3 reorder, 4 starve acks, 5 random
+                        // moods: 0 perfect, 1 hold the reliable channels, 2 lossy, 3 reorder, 4 starve acks, 5 random,
+                        // 6 hold only the update channel (events and mutations overtake it)
                         let hold = match mood {
                             0 => false,
                             1 => !unreliable && s2c && self.rng.chance(4, 5),
+                            6 => s2c && ch == 0 && self.rng.chance(5, 6),
                             2 => self.rng.chance(1, 4),
                             3 => self.rng.chance(1, 3),
                             4 => !s2c && self.rng.chance(5, 6),
@@ -1384,6 +1405,60 @@ impl Gen {
         }
         if self.sys.cfg.auth == "custom" {
             for c in 0..nclients { if self.rng.chance(1, 2) { self.step(format!("auth {c}")); } }
+        }
+        if profile == "sys_split" && self.rng.chance(1, 4) {
+            // acknowledged (or timed-out) mutate messages first, then a tick split into one message
+            // per entity of which only some arrive, then a change of another component
+            let base = self.next_ent;
+            let n = self.rng.range(2, 4) as usize;
+            for _ in 0..n {
+                let e = self.next_ent;
+                self.next_ent += 1;
+                let (a, l) = (self.v(), self.rng.range(5, 40));
+                self.step(format!("spawn {e} m=1 A={a} L={l}"));
+            }
+            let round = |g: &mut Gen| {
+                g.step("sframe tick=1".into());
+                g.network(0);
+                g.step("cframe 0".into());
+                g.network(0);
+            };
+            round(self);
+            round(self);
+            for i in 0..n { let l = self.rng.range(5, 40); self.step(format!("mut {} L={l}", base + i)); }
+            if self.rng.chance(1, 2) {
+                // … acknowledged
+                round(self);
+                self.step("sframe tick=1".into());
+            } else {
+                // … or lost and timed out
+                self.step("sframe tick=1".into());
+                while !self.sys.clients[0].s2c[1].is_empty() { self.step("drop 0 s2c 1 0".into()); }
+                self.step("sframe tick=0 ms=500".into());
+                self.step("sframe tick=0 ms=500".into());
+                self.step("sframe tick=0 ms=500".into());
+            }
+            self.step("maxsize 0 130".into());
+            for i in 0..n { self.step(format!("mut {} L=100", base + i)); }
+            self.step("sframe tick=1".into());
+            // one of the parts arrives and is acknowledged, the others are lost
+            let parts = self.sys.clients[0].s2c[1].len();
+            if parts > 0 {
+                let keep = self.rng.below(parts as u64) as usize;
+                for k in (0..parts).rev() {
+                    self.step(format!("{} 0 s2c 1 {k}", if k == keep { "deliver" } else { "drop" }));
+                }
+            }
+            while !self.sys.clients[0].s2c[0].is_empty() { self.step("deliver 0 s2c 0 0".into()); }
+            self.step("cframe 0".into());
+            self.network(0);
+            self.step("sframe tick=1".into());
+            self.step("maxsize 0 1200".into());
+            let e = base + self.rng.below(n as u64) as usize;
+            let a = self.v();
+            self.step(format!("mut {e} A={a}"));
+            round(self);
+            round(self);
         }
         if profile == "sys_split" && self.sys.cfg.sync && self.rng.chance(1, 3) {
             // two groups that are replicated and known, then joined by an edge between existing
@@ -1424,9 +1499,10 @@ impl Gen {
             self.step("cframe 0".into());
         }
         let steps = self.rng.range(6, 40);
-        let mut mood = self.rng.below(6);
+        let nmoods = if profile == "sys_evt" { 8 } else { 6 };
+        let mut mood = self.rng.below(nmoods).min(6);
         for _ in 0..steps {
-            if self.rng.chance(1, 8) { mood = self.rng.below(6); }
+            if self.rng.chance(1, 8) { mood = self.rng.below(nmoods).min(6); }
             match self.rng.below(100) {
                 0..=44 => self.world_op(profile),
                 45..=64 => {
